@@ -374,6 +374,11 @@ func (d *driver) analyze(res *runResult) {
 		res.died = what + " @ " + strings.Join(fs, " < ")
 		sig := "process-died:" + stripDigits(what) + "@" + strings.Join(fs, "<")
 		prop := "C15"
+		if res.spec.pe.Engine == "C" || res.spec.pe.Engine == "D" {
+			// the log package / the codecs alone, on legal input: a panic is a
+			// wrong answer of the operation that was running
+			prop = d.prop
+		}
 		res.rep.Findings = append(res.rep.Findings, oracle.Finding{Prop: prop, Rule: "process-died", Sig: sig, Msg: res.died + fmt.Sprintf(" (exit %d)", res.exit)})
 		// reads of invalidated log data by replication / state machine belong to C09 as well
 		if strings.Contains(text, "replication") || strings.Contains(text, "stateMachine") || strings.Contains(text, "ViewAt") {
